@@ -9,11 +9,22 @@
          name; "complete" = the store was told to keep exactly that file)
       1  IDs handed out by DB.NewUpload: sequentially, and by 16 goroutines
          concurrently on one database
+      2  a history of uploads on one database under a chosen clock (tagged hook
+         db.VerifSetNow): (2 steps), step = (kind day id n commit ok resid
+         listing): kind 0 = NewUpload at a clock reading on UTC day [day]
+         (YYYYMMDD), 1 = ReplaceUpload of the absent explicit ID [id]; n records
+         inserted, then committed or aborted; observed: ok, the ID handed out,
+         and the listing (id, count) of ALL uploads after the step
+      3  two front ends with skewed clocks at once: (3 (dayA dayB) seeds per
+         errs listing): seeds = (id n) uploads present before, per goroutine the
+         (id n) obtained from NewUpload while the clock alternates between the
+         two days (n = records committed, 0 = aborted), the final listing
     The part sequence of a (possibly cut) multipart body and the way it ends
     are taken from mime/multipart itself, run by the harness on the same bytes
     (library oracle); the number of body writes per file from a fault-free run
     of the same request. *)
-From Perf Require Import Base.Bytes Base.Sx Model.Words Model.Query Model.StoreFmt Model.Upload Model.Ids.
+From Perf Require Import Base.Bytes Base.Sx Model.Words Model.Query Model.StoreFmt Model.Upload Model.Ids
+     Model.IdsHist.
 
 Definition z2n (z : Z) : N := match z with Zpos p => Npos p | _ => 0%N end.
 Definition z2nat (z : Z) : nat := N.to_nat (z2n z).
@@ -257,9 +268,119 @@ Definition prop_i (c : icase) : bool :=
   | _, _ => false   (* some ID is not of the form YYYYMMDD.N *)
   end.
 
+(** ** kind 2: histories under a chosen clock *)
+Record hobs := mkHo { ho_new : bool; ho_day : N; ho_id : bytes; ho_n : N; ho_commit : bool;
+                      ho_ok : bool; ho_res : bytes; ho_list : list (bytes * N) }.
+
+Definition as_idn (s : sx) : option (bytes * N) :=
+  match s with SL [SB i; SZ n] => Some (i, z2n n) | _ => None end.
+
+Definition as_hobs (s : sx) : option hobs :=
+  match s with
+  | SL [SZ k; SZ day; SB id; SZ n; c; ok; SB res; li] =>
+      do c <- as_bool c; do ok <- as_bool ok; do li <- as_list as_idn li;
+      Some (mkHo (k =? 0)%Z (z2n day) id (z2n n) c ok res li)
+  | _ => None
+  end.
+
+Definition uidn_eqb (a b : uid * N) : bool := uid_eqb (fst a) (fst b) && (snd a =? snd b)%N.
+
+Definition parse_listing (l : list (bytes * N)) : option (list (uid * N)) :=
+  omap (fun e => match parse_id (fst e) with Some u => Some (u, snd e) | None => None end) l.
+
+(** newest first: ORDER BY Day DESC, Seq DESC *)
+Fixpoint strictly_decreasing (l : list uid) : bool :=
+  match l with
+  | a :: ((b :: _) as r) => uid_ltb b a && strictly_decreasing r
+  | _ => true
+  end.
+
+(** the model run next to the observations: every step hands out what the
+    model hands out (or fails where it fails), and lists what the model lists *)
+Fixpoint corr_h (s : hstate) (l : list hobs) : bool :=
+  match l with
+  | [] => true
+  | o :: r =>
+      let op := if ho_new o then Some (HNew (ho_day o) (ho_n o) (ho_commit o))
+                else match parse_id (ho_id o) with Some u => Some (HSeed u (ho_n o) (ho_commit o)) | None => None end in
+      match op with
+      | None => false
+      | Some op =>
+          let '(s', res) := hstep s op in
+          match res with
+          | Some u => ho_ok o && beq (ho_res o) (id_text u)
+          | None => negb (ho_ok o)
+          end
+          && match parse_listing (ho_list o) with
+             | Some li => mset_eqb uidn_eqb li (hlisting s') && strictly_decreasing (map fst li)
+             | None => false
+             end
+          && corr_h s' r
+      end
+  end.
+
+(** the specification on the observations alone.  [used]: every ID handed out
+    so far (by NewUpload, or given explicitly); [com]: the uploads committed so
+    far with the number of their records.  A NewUpload that succeeds returns an
+    ID of the form YYYYMMDD.N that is not in [used]; after EVERY step (also a
+    failed or an aborted one) the listing is exactly [com] *)
+Fixpoint prop_h (used : list bytes) (com : list (bytes * N)) (l : list hobs) : bool :=
+  match l with
+  | [] => true
+  | o :: r =>
+      let fresh := negb (existsb (beq (ho_res o)) used) in
+      let wellformed := match parse_id (ho_res o) with Some _ => true | None => false end in
+      let used' := if ho_ok o then ho_res o :: used else used in
+      let com' := if ho_ok o && ho_commit o && negb (ho_n o =? 0)%N then (ho_res o, ho_n o) :: com else com in
+      (if ho_ok o then wellformed && (if ho_new o then fresh else beq (ho_res o) (ho_id o)) else true)
+      && mset_eqb idn_eqb (ho_list o) com'
+      && prop_h used' com' r
+  end.
+
+(** ** kind 3: skewed clocks at once *)
+Record skew := mkSk { sk_days : list N; sk_seeds : list (bytes * N); sk_per : list (list (bytes * N));
+                      sk_errs : N; sk_list : list (bytes * N) }.
+
+Definition decode_s (l : list sx) : option skew :=
+  match l with
+  | [SL [SZ a; SZ b]; seeds; per; SZ errs; li] =>
+      do seeds <- as_list as_idn seeds; do per <- as_list (as_list as_idn) per; do li <- as_list as_idn li;
+      Some (mkSk [z2n a; z2n b] seeds per (z2n errs) li)
+  | _ => None
+  end.
+
+(** what the model fixes of a concurrent run: every ID is of one of the two days
+    and numbered within what the calls can have used up *)
+Definition corr_s (c : skew) : bool :=
+  let all := concat (sk_per c) in
+  match omap (fun e => parse_id (fst e)) all with
+  | Some ids =>
+      forallb (fun u => existsb (N.eqb (fst u)) (sk_days c)
+                        && (snd u <=? N.of_nat (length all + length (sk_seeds c)) + sk_errs c)%N) ids
+  | None => false
+  end.
+
+Fixpoint nodup_bytes (l : list bytes) : bool :=
+  match l with [] => true | x :: r => negb (existsb (beq x) r) && nodup_bytes r end.
+
+(** no ID twice (among the new ones and the ones present before); the listing
+    is exactly the earlier uploads plus the committed new ones *)
+Definition prop_s (c : skew) : bool :=
+  let all := concat (sk_per c) in
+  nodup_bytes (map fst (sk_seeds c ++ all))
+  && forallb (fun e => match parse_id (fst e) with Some _ => true | None => false end) all
+  && mset_eqb idn_eqb (sk_list c)
+       (sk_seeds c ++ filter (fun e => negb (snd e =? 0)%N) all).
+
 Definition run_case (s : sx) : N :=
   match s with
   | SL (SZ 0 :: l) => match decode_u l with Some c => code_of (corr_u c) (prop_u c) | None => code_undecodable end
   | SL (SZ 1 :: l) => match decode_i l with Some c => code_of (corr_i c) (prop_i c) | None => code_undecodable end
+  | SL [SZ 2; steps] =>
+      match as_list as_hobs steps with
+      | Some l => code_of (corr_h h0 l) (prop_h [] [] l)
+      | None => code_undecodable
+      end
+  | SL (SZ 3 :: l) => match decode_s l with Some c => code_of (corr_s c) (prop_s c) | None => code_undecodable end
   | _ => code_undecodable
   end.
